@@ -11,8 +11,16 @@
 
     Recursion is on fuel = nesting depth (grouping lookups are not structural); sibling lists are
     walked structurally.  Out of fuel is the distinct outcome [OutOfFuel].
-    Not modelled: if-feature, actions/notifications, deviations, recursive groupings, the
-    flattened index of choice members in the enclosing node (paths must name choice and case). *)
+    Operations (rpc/action with input/output, notification) are statements of the kinds
+    [KAction]/[KInput]/[KOutput]/[KNotif] in the same sibling lists as the data definitions: the Go
+    code keeps them in maps beside the data definitions ([actions], [notifications]); the model
+    keeps ONE list in processing order and [canon] observes it the way the accessors do (data
+    definitions in order, then Actions() and Notifications() by name).  The three name indexes of
+    a parent are modelled as one: a data definition, an action and a notification of one parent
+    are assumed to have different names.
+    Not modelled: if-feature, deviations, recursive groupings, the flattened index of choice
+    members in the enclosing node (paths must name choice and case), meta.Find refusing to step
+    from an rpc/action to its input/output. *)
 From Coq Require Import List Bool ZArith Strings.Byte.
 From YV Require Import Schemac.Ast.
 Import ListNotations.
@@ -79,6 +87,18 @@ Definition find_grouping (cx : ctx) (pfx : option text) (g : text) : option (lis
            end
   end.
 
+(** * Classes of kinds *)
+
+(** rpc/action and notification: held in the maps [actions] / [notifications] of the parent *)
+Definition is_op (k : kind) : bool := match k with KAction | KNotif => true | _ => false end.
+
+(** data definitions (meta.HasDataDefinitions members): the kinds with config/when *)
+Definition is_datadef (k : kind) : bool :=
+  match k with KAction | KInput | KOutput | KNotif => false | _ => true end.
+
+(** meta.HasActions / meta.HasNotifications among the node kinds (the module is the root list) *)
+Definition allows_ops (k : kind) : bool := match k with KCont | KList => true | _ => false end.
+
 (** * Pieces of expandUses *)
 
 Definition with_when (p : props) (w : option text) : props :=
@@ -86,13 +106,15 @@ Definition with_when (p : props) (w : option text) : props :=
           (p_presence p).
 
 (** resolver.cloneDefs: [if when != nil { copy[i].setWhen(when) }] — the uses' condition
-    OVERWRITES the clone's own (known finding 1) *)
+    OVERWRITES the clone's own (known finding 1).  cloneDefs runs over g.DataDefinitions() only:
+    the grouping's actions and notifications are cloned without the condition *)
 Definition set_when (w : option text) (s : stmt) : stmt :=
   match w with
   | None => s
   | Some _ =>
       match s with
-      | SNode k n p keys grps kids => SNode k n (with_when p w) keys grps kids
+      | SNode k n p keys grps kids =>
+          SNode k n (if is_datadef k then with_when p w else p) keys grps kids
       | SUses pfx g _ refs augs => SUses pfx g w refs augs
       | other => other
       end
@@ -121,9 +143,10 @@ Fixpoint update_at (path : list text) (f : enode -> outcome enode) (l : list eno
          end) l
   end.
 
-Definition has_mand (k : kind) : bool := match k with KCase => false | _ => true end.
+Definition has_mand (k : kind) : bool :=
+  match k with KCase | KAction | KInput | KOutput | KNotif => false | _ => true end.
 Definition has_must (k : kind) : bool :=
-  match k with KCont | KList | KLeaf | KLeafList => true | _ => false end.
+  match k with KCont | KList | KLeaf | KLeafList | KInput | KOutput => true | _ => false end.
 Definition has_minmax (k : kind) : bool := match k with KList | KLeafList => true | _ => false end.
 
 Definition is_nil {A} (l : list A) : bool := match l with [] => true | _ => false end.
@@ -140,6 +163,7 @@ Definition refine_node (r : refine) (e : enode) : outcome enode :=
     | _ => match k with KLeafList => true | _ => false end
     end in
   let dflt := if is_nil (r_dflt r) then p_dflt p else r_dflt r in
+  let cfg_ok := negb (is_some (r_config r)) || is_datadef k in
   let cfg := match r_config r with Some b => Some b | None => p_config p end in
   let mand_ok := negb (is_some (r_mand r)) || has_mand k in
   let mand := match r_mand r with Some b => Some b | None => p_mand p end in
@@ -147,7 +171,7 @@ Definition refine_node (r : refine) (e : enode) : outcome enode :=
   let mn := match r_min r with Some z => Some z | None => p_min p end in
   let mx := match r_max r with Some z => Some z | None => p_max p end in
   let must_ok := is_nil (r_musts r) || has_must k in
-  if dflt_ok && mand_ok && mm_ok && must_ok then
+  if dflt_ok && cfg_ok && mand_ok && mm_ok && must_ok then
     Ok (ENode k n (mkProps cfg mand dflt desc (p_when p) (p_musts p ++ r_musts r) mn mx
                            (p_presence p)) ks kids)
   else Err.
@@ -159,7 +183,8 @@ Fixpoint apply_refines (refs : list refine) (acc : list enode) : outcome (list e
   | r :: tl => bind (update_at (r_path r) (refine_node r) acc) (apply_refines tl)
   end.
 
-Definition has_grps (k : kind) : bool := match k with KCont | KList => true | _ => false end.
+Definition has_grps (k : kind) : bool :=
+  match k with KCont | KList | KAction | KInput | KOutput | KNotif => true | _ => false end.
 
 Definition colon : text := [x3a].
 
@@ -184,7 +209,8 @@ Definition expand_into (rec : list enode -> list stmt -> outcome (list enode))
   let 'ENode k n p ks kids := t in
   match k with
   | KChoice => bind (rec kids (map wrap_case body)) (fun kids' => Ok (ENode k n p ks kids'))
-  | KCont | KList | KCase => bind (rec kids body) (fun kids' => Ok (ENode k n p ks kids'))
+  | KCont | KList | KCase | KInput | KOutput | KNotif =>
+      bind (rec kids body) (fun kids' => Ok (ENode k n p ks kids'))
   | _ => Err
   end.
 
@@ -202,7 +228,9 @@ Fixpoint expand (fuel : nat) (cx : ctx) (acc : list enode) (ss : list stmt) {str
              bind
                (match s with
                 | SNode k n p keys grps kids =>
-                    (* parent.addDataDefinition (conflict check), then enter(child) *)
+                    (* parent.addDataDefinition / addAction / addNotification (conflict check),
+                       then enter(child): for an rpc its input and output, for everything
+                       else its members *)
                     if mem_text n (names acc) then Err
                     else
                       let cx' := if has_grps k then mkCtx (grps :: c_scopes cx) (c_mod cx) else cx in
@@ -252,7 +280,8 @@ Definition graft (nodes : list enode) (t : enode) : outcome enode :=
   let 'ENode k n p ks kids := t in
   match k with
   | KChoice => bind (add_all kids (map ewrap_case nodes)) (fun kids' => Ok (ENode k n p ks kids'))
-  | KCont | KList | KCase => bind (add_all kids nodes) (fun kids' => Ok (ENode k n p ks kids'))
+  | KCont | KList | KCase | KInput | KOutput | KNotif =>
+      bind (add_all kids nodes) (fun kids' => Ok (ENode k n p ks kids'))
   | _ => Err
   end.
 
@@ -300,8 +329,18 @@ Definition keys_ok (k : kind) (ks : list text) (kids : list enode) : bool :=
   | _ => true
   end.
 
+(** resolver.expandUses "cannot add ... does not allow actions|notifications", Builder.Action /
+    Builder.Notification "does not support ...": an rpc/action or notification is a member of the
+    module, a container or a list only.  The Go code refuses when the member is added; no member is
+    ever removed afterwards, so the finished tree has a misplaced member iff some addition was
+    refused: the model checks the finished tree *)
+Definition members_ok (k : kind) (kids : list enode) : bool :=
+  allows_ops k || negb (existsb (fun c => is_op (e_kind c)) kids).
+
 (** compiler.compile, HasConfig branch: unset -> inherit; [config true] under [config false] is
-    an error *)
+    an error.  Rpc, RpcInput, RpcOutput and Notification are no HasConfig: they keep no config
+    themselves, and their members inherit [true] from them whatever the enclosing nodes say
+    (inheritConfig of a parent without config) *)
 Definition eff_config (pcfg : bool) (stated : option bool) : option bool :=
   match stated with
   | Some true => if pcfg then Some true else None
@@ -311,7 +350,7 @@ Definition eff_config (pcfg : bool) (stated : option bool) : option bool :=
 
 Fixpoint config_node (pcfg : bool) (e : enode) {struct e} : option enode :=
   let 'ENode k n p ks kids := e in
-  match eff_config pcfg (p_config p) with
+  match (if is_datadef k then eff_config pcfg (p_config p) else Some true) with
   | None => None
   | Some c =>
       match (fix go (l : list enode) : option (list enode) :=
@@ -324,7 +363,9 @@ Fixpoint config_node (pcfg : bool) (e : enode) {struct e} : option enode :=
                    end
                end) kids with
       | None => None
-      | Some kids' => if keys_ok k ks kids then Some (ENode k n (set_config p c) ks kids') else None
+      | Some kids' =>
+          if keys_ok k ks kids && members_ok k kids
+          then Some (ENode k n (if is_datadef k then set_config p c else p) ks kids') else None
       end
   end.
 
@@ -338,7 +379,8 @@ Fixpoint config_kids (pcfg : bool) (l : list enode) : option (list enode) :=
       end
   end.
 
-(** * Observation order: Choice.CaseIdents sorts the case map *)
+(** * Observation order: Choice.CaseIdents sorts the case map; Actions() and Notifications() are
+      maps beside the ordered DataDefinitions() *)
 Fixpoint insert_by_name (e : enode) (l : list enode) : list enode :=
   match l with
   | [] => [e]
@@ -347,10 +389,20 @@ Fixpoint insert_by_name (e : enode) (l : list enode) : list enode :=
 
 Definition sort_by_name (l : list enode) : list enode := fold_right insert_by_name [] l.
 
+(** members as the accessors deliver them: DataDefinitions() in order (for an rpc: input, output),
+    then the actions by name, then the notifications by name *)
+Definition by_class (l : list enode) : list enode :=
+  filter (fun e => negb (is_op (e_kind e))) l ++
+  sort_by_name (filter (fun e => kind_eqb (e_kind e) KAction) l) ++
+  sort_by_name (filter (fun e => kind_eqb (e_kind e) KNotif) l).
+
 Fixpoint canon (e : enode) : enode :=
   let 'ENode k n p ks kids := e in
   let kids' := map canon kids in
-  ENode k n p ks (match k with KChoice => sort_by_name kids' | _ => kids' end).
+  ENode k n p ks (match k with
+                  | KChoice | KAction => sort_by_name kids'   (* "input" sorts before "output" *)
+                  | _ => by_class kids'
+                  end).
 
 (** accessor view of the stated properties: Mandatory() is false, Min/MaxElements() are 0 when
     unset *)
@@ -369,7 +421,7 @@ Fixpoint norm (e : enode) : enode :=
 Definition compile_modset (fuel : nat) (ms : modset) : outcome (list enode) :=
   bind (expand_modset fuel ms) (fun t =>
     match config_kids true t with
-    | Some t' => Ok (map (fun e => norm (canon e)) t')
+    | Some t' => Ok (by_class (map (fun e => norm (canon e)) t'))
     | None => Err
     end).
 
